@@ -33,17 +33,31 @@ pub enum Count {
 #[derive(Clone, Debug, PartialEq)]
 pub enum Rec {
     Lcount(Dec, Count),
-    /// start line, call count (plain decimal, any size), name (may contain commas)
-    Function(Dec, u128, String),
+    /// start line, call count as gcov's signed formatter prints it (canonical decimal of any size,
+    /// `-` in front when `neg`; never `-0`), name (any bytes but CR/LF; may contain commas)
+    Function(Dec, Calls, Vec<u8>),
     /// line, token
     Branch(Dec, String),
     /// any other `key:value` line (version:, and keys of later gcov versions)
     Other(String, String),
 }
 
+/// the call count of a `function:` record: ±val, printed canonically
+#[derive(Clone, Debug, PartialEq)]
+pub struct Calls {
+    pub neg: bool,
+    pub val: u128,
+}
+impl Calls {
+    pub fn text(&self) -> String {
+        format!("{}{}", if self.neg { "-" } else { "" }, self.val)
+    }
+}
+
 #[derive(Clone, Debug, PartialEq)]
 pub struct Sec {
-    pub name: String,
+    /// any bytes but CR/LF (since /repo 7f9b2b3 the reader decodes lossily: not only UTF-8)
+    pub name: Vec<u8>,
     pub recs: Vec<Rec>,
 }
 
@@ -87,6 +101,31 @@ pub const FN_NAMES: &[&str] = &[
     "trail,",
     "a:b",
 ];
+/// names that are not well-formed UTF-8 (lone lead byte, truncated sequences, Latin-1, a
+/// surrogate, an overlong form, a lone continuation byte, beyond U+10FFFF) - with ASCII around them
+pub const BAD_NAMES: &[&[u8]] = &[
+    b"a\xff.c",
+    b"\xc3",
+    b"dir/\xe2\x82.c",
+    b"\xf0\x9f\x92",
+    b"caf\xe9.c",
+    b"\xed\xa0\x80x",
+    b"\xc0\xaf",
+    b"x\x80y,z",
+    b"\xf4\x90\x80\x80",
+    b"ok\xe2\x82\xac\xe2\x82",
+    b"f(\xfe, int)",
+    b"\xc3:\xa9,\xc3",
+];
+
+pub fn gen_name(rng: &mut Rng, pool: &[&str]) -> Vec<u8> {
+    if rng.chance(1, 7) {
+        rng.pick(BAD_NAMES).to_vec()
+    } else {
+        rng.pick(pool).as_bytes().to_vec()
+    }
+}
+
 const OTHERS: &[(&str, &str)] = &[
     ("version", "7.5.0"),
     ("version", "4.9.2:extra"),
@@ -147,24 +186,29 @@ fn gen_count(rng: &mut Rng, allow_overflow: bool) -> Count {
 }
 
 pub fn gen_sec(rng: &mut Rng, dups: bool, allow_overflow: bool) -> Sec {
-    let name = rng.pick(FILE_NAMES).to_string();
+    let name = gen_name(rng, FILE_NAMES);
     let mut recs = vec![];
     // functions
-    let mut names: Vec<String> = vec![];
+    let mut names: Vec<Vec<u8>> = vec![];
     for _ in 0..rng.below(4) {
-        let n = rng.pick(FN_NAMES).to_string();
-        if dups || !names.contains(&n) {
+        let n = gen_name(rng, FN_NAMES);
+        // names are compared AFTER decoding: two different ill-formed names can decode to one
+        let key = String::from_utf8_lossy(&n).into_owned();
+        if dups || !names.iter().any(|m| String::from_utf8_lossy(m) == key) {
             names.push(n);
         }
     }
     for n in names {
-        let cnt: u128 = match rng.below(6) {
+        let val: u128 = match rng.below(6) {
             0 | 1 => 0,
             2 => 1,
             3 => *rng.pick(&[u64::MAX as u128, u64::MAX as u128 + 1, 10, 100, 1u128 << 70]),
             _ => rng.range(1, 100000) as u128,
         };
-        recs.push(Rec::Function(gen_line_no(rng), cnt, n));
+        // gcov prints the counter with its signed 64-bit formatter: a wrapped counter is negative
+        let neg = val != 0 && rng.chance(1, 5);
+        let val = if neg && rng.chance(1, 3) { *rng.pick(&[1u128 << 63, 2534, 1, (1u128 << 63) - 1]) } else { val };
+        recs.push(Rec::Function(gen_line_no(rng), Calls { neg, val }, n));
     }
     // lines (usually present; a section without any lcount is omitted from the result)
     let nl = if rng.chance(1, 6) { 0 } else { rng.range(1, 8) };
@@ -220,31 +264,37 @@ pub fn gen_report(rng: &mut Rng, dups: bool) -> Report {
     }
 }
 
-pub fn render_rec(r: &Rec) -> String {
+pub fn render_rec(r: &Rec) -> Vec<u8> {
     match r {
-        Rec::Lcount(l, Count::Num(c)) => format!("lcount:{},{}", l.text(), c.text()),
-        Rec::Lcount(l, Count::Neg(t)) => format!("lcount:{},-{}", l.text(), t),
-        Rec::Function(s, c, n) => format!("function:{},{},{}", s.text(), c, n),
-        Rec::Branch(l, t) => format!("branch:{},{}", l.text(), t),
-        Rec::Other(k, v) => format!("{}:{}", k, v),
+        Rec::Lcount(l, Count::Num(c)) => format!("lcount:{},{}", l.text(), c.text()).into_bytes(),
+        Rec::Lcount(l, Count::Neg(t)) => format!("lcount:{},-{}", l.text(), t).into_bytes(),
+        Rec::Function(s, c, n) => {
+            let mut b = format!("function:{},{},", s.text(), c.text()).into_bytes();
+            b.extend_from_slice(n);
+            b
+        }
+        Rec::Branch(l, t) => format!("branch:{},{}", l.text(), t).into_bytes(),
+        Rec::Other(k, v) => format!("{}:{}", k, v).into_bytes(),
     }
 }
 
 pub fn render(r: &Report) -> Vec<u8> {
-    let mut lines: Vec<String> = vec![];
+    let mut lines: Vec<Vec<u8>> = vec![];
     for (k, v) in &r.pre {
-        lines.push(format!("{}:{}", k, v));
+        lines.push(format!("{}:{}", k, v).into_bytes());
     }
     for s in &r.secs {
-        lines.push(format!("file:{}", s.name));
+        let mut l = b"file:".to_vec();
+        l.extend_from_slice(&s.name);
+        lines.push(l);
         for rec in &s.recs {
             lines.push(render_rec(rec));
         }
     }
-    let mut out = String::new();
+    let mut out: Vec<u8> = vec![];
     let n = lines.len();
     for (i, l) in lines.iter().enumerate() {
-        out.push_str(l);
+        out.extend_from_slice(l);
         let last = i + 1 == n;
         let eol = match r.eol {
             0 => "\n",
@@ -254,13 +304,19 @@ pub fn render(r: &Report) -> Vec<u8> {
         if last && !r.final_newline {
             // a last line without LF (a trailing CR alone is still stripped)
             if r.eol == 1 {
-                out.push('\r');
+                out.push(b'\r');
             }
         } else {
-            out.push_str(eol);
+            out.extend_from_slice(eol.as_bytes());
         }
     }
-    out.into_bytes()
+    out
+}
+
+/// what a name in the file means: its bytes as text, every maximal ill-formed UTF-8 sequence
+/// replaced by U+FFFD (the standard library's decoder, not grcov)
+pub fn decode_name(b: &[u8]) -> String {
+    String::from_utf8_lossy(b).into_owned()
 }
 
 /// What the report says, written independently of grcov: `Ok(sections)` or `Err("Parse")` when a
@@ -290,11 +346,12 @@ pub fn sem(r: &Report) -> Result<Vec<(String, CovResult)>, &'static str> {
                     if st.val > u32::MAX as u128 {
                         return Err("Parse");
                     }
+                    // the property: executed iff the call count is non-zero (negative included)
                     cov.functions.insert(
-                        n.clone(),
+                        decode_name(n),
                         Function {
                             start: st.val as u32,
-                            executed: *c != 0,
+                            executed: c.val != 0,
                         },
                     );
                 }
@@ -308,7 +365,7 @@ pub fn sem(r: &Report) -> Result<Vec<(String, CovResult)>, &'static str> {
             }
         }
         if !cov.lines.is_empty() {
-            out.push((s.name.clone(), cov));
+            out.push((decode_name(&s.name), cov));
         }
     }
     Ok(out)
@@ -341,6 +398,9 @@ pub fn features(r: &Report) -> Vec<&'static str> {
     });
     for s in &r.secs {
         let mut has_l = false;
+        if std::str::from_utf8(&s.name).is_err() {
+            f.push("file.name_not_utf8");
+        }
         for rec in &s.recs {
             match rec {
                 Rec::Lcount(l, c) => {
@@ -360,10 +420,16 @@ pub fn features(r: &Report) -> Vec<&'static str> {
                 }
                 Rec::Function(_, c, n) => {
                     f.push("rec.function");
-                    if n.contains(',') {
+                    if n.contains(&b',') {
                         f.push("function.name_with_comma");
                     }
-                    f.push(if *c == 0 { "function.not_executed" } else { "function.executed" });
+                    if std::str::from_utf8(n).is_err() {
+                        f.push("function.name_not_utf8");
+                    }
+                    if c.neg {
+                        f.push("function.negative_call_count");
+                    }
+                    f.push(if c.val == 0 { "function.not_executed" } else { "function.executed" });
                 }
                 Rec::Branch(_, t) => {
                     f.push("rec.branch");
@@ -394,12 +460,13 @@ pub fn show_report(r: &Report) -> serde_json::Value {
     serde_json::json!({
         "pre": r.pre, "eol": r.eol, "final_newline": r.final_newline,
         "secs": r.secs.iter().map(|s| serde_json::json!({
-            "file": s.name, "recs": s.recs.iter().map(render_rec).collect::<Vec<_>>()})).collect::<Vec<_>>()
+            "file": String::from_utf8_lossy(&s.name), "file_hex": hex(&s.name),
+            "recs": s.recs.iter().map(|r| String::from_utf8_lossy(&render_rec(r)).into_owned()).collect::<Vec<_>>()})).collect::<Vec<_>>()
     })
 }
 
 // ---------------------------------------------------------------------------------------------
-// malformed stream (always valid UTF-8: parse_gcov reads the line through from_utf8_unchecked)
+// malformed stream (any bytes: since /repo 7f9b2b3 parse_gcov decodes every line lossily)
 
 pub const TOKENS: &[&str] = &[
     "file:", "function:", "lcount:", "branch:", "version:", "file", "lcount", "\n", "\r\n", "\r", ",", ":",
@@ -407,13 +474,6 @@ pub const TOKENS: &[&str] = &[
     "18446744073709551616", "99999999999999999999999", "taken", "nottaken", "notexec", "a.c", "main", "é",
     " ", "-5", "f,g", "x", "\n\n", "1,1", "3,taken",
 ];
-
-fn utf8(b: Vec<u8>) -> Vec<u8> {
-    match String::from_utf8(b) {
-        Ok(s) => s.into_bytes(),
-        Err(e) => String::from_utf8_lossy(e.as_bytes()).into_owned().into_bytes(),
-    }
-}
 
 pub fn gen_malformed(rng: &mut Rng) -> Vec<u8> {
     let b = match rng.below(5) {
@@ -448,7 +508,7 @@ pub fn gen_malformed(rng: &mut Rng) -> Vec<u8> {
                         let t = rng.pick(TOKENS).as_bytes().to_vec();
                         b.splice(k..k, t);
                     }
-                    _ => b[k] = *rng.pick(&[b'\n', b',', b'-', b'+', b'9', b':', b'f', b'\r', b'0']),
+                    _ => b[k] = *rng.pick(&[b'\n', b',', b'-', b'+', b'9', b':', b'f', b'\r', b'0', 0xff, 0xc3, 0x80, 0xe2, 0xf0]),
                 }
             }
             b
@@ -489,5 +549,5 @@ pub fn gen_malformed(rng: &mut Rng) -> Vec<u8> {
             lines.concat()
         }
     };
-    utf8(b)
+    b
 }
